@@ -59,6 +59,9 @@ type ReplayFile struct {
 	ShrinkExec int      `json:"shrink_executions"`
 	Trace      []string `json:"minimised_trace"`
 	HowTo      string   `json:"how_to_replay"`
+	// PrefixRuns: execute runs 0..RunIndex of the batch sequentially (each from its own seed) and
+	// look for the violation in the last one — for violations that need state left by earlier runs.
+	PrefixRuns bool `json:"prefix_runs,omitempty"`
 }
 
 type finding struct {
@@ -182,6 +185,14 @@ func Main(c *Check, tb *testing.T) int {
 		return replayMain(c, rp, tb)
 	}
 	fmt.Printf("VERIF_SEED=%d property=%s tier=%s\n", master, c.ID, tier)
+	if ds := os.Getenv("VERIF_DIGEST_ONLY"); ds != "" {
+		// child mode of the determinism re-check: execute one run index, print its digest
+		i, _ := strconv.Atoi(ds)
+		seed := SubSeed(master, c.ID, i)
+		res, _ := execRun(c, tier, i, seed, NewTape(seed), "", false, tb)
+		fmt.Printf("RUN-DIGEST %s\n", res.digest)
+		return ExitOK
+	}
 	if ts := os.Getenv("VERIF_TRACE"); ts != "" {
 		// debugging aid: execute one run index and print its event log
 		i, _ := strconv.Atoi(ts)
@@ -271,42 +282,36 @@ func Main(c *Check, tb *testing.T) int {
 	}
 	batchDigest := hex.EncodeToString(batch.Sum(nil)[:8])
 
-	// Determinism re-check: re-execute a sample of runs and compare event-log digests.
-	rechecks, mismatches := 0, 0
-	step := done / 6
-	if step < 1 {
-		step = 1
-	}
-	for i := 0; i < n && rechecks < 6; i += step {
-		if results[i] == nil {
-			continue
-		}
-		res2, _ := execRun(c, tier, i, results[i].seed, NewTape(results[i].seed), "", false, tb)
-		rechecks++
-		if res2.digest != results[i].digest {
-			mismatches++
-			fmt.Printf("HARNESS-ERROR: run %d (seed %d) is not deterministic: digest %s vs %s\n", i, results[i].seed, results[i].digest, res2.digest)
-		}
-	}
-	if mismatches > 0 {
-		return ExitHarness
-	}
-
-	// Report violations: one per (property, class), lowest run index first.
+	// Report violations: one per (property, class).  The first occurrence (lowest run index) is
+	// minimised and replayed in a fresh process; if it does not reproduce there — which happens
+	// when the code under test carries state from earlier calls — the whole run is replayed
+	// instead of the single item, then other occurrences of the class are tried, and as a last
+	// resort the batch prefix up to that run is replayed sequentially.
 	known := loadKnownFindings()
-	seen := map[string]bool{}
-	var knownPrinted []string
-	newViolations := 0
-	exit := ExitOK
+	type occT struct {
+		v   Violation
+		res *runResult
+	}
+	var classOrder []string
+	occs := map[string][]occT{}
 	for _, e := range allViol {
 		key := e.v.Prop + "|" + e.v.Class
-		if seen[key] {
-			continue
+		if _, ok := occs[key]; !ok {
+			classOrder = append(classOrder, key)
 		}
-		seen[key] = true
+		if len(occs[key]) < 6 {
+			occs[key] = append(occs[key], occT{e.v, e.res})
+		}
+	}
+	var knownPrinted []string
+	var unconfirmed []string
+	newViolations := 0
+	exit := ExitOK
+	for _, key := range classOrder {
+		first := occs[key][0]
 		matched := false
 		for _, k := range known {
-			if k.prop == e.v.Prop && k.class == e.v.Class {
+			if k.prop == first.v.Prop && k.class == first.v.Class {
 				line := fmt.Sprintf("KNOWN-FINDING: property=%s %s [class=%s]", k.prop, k.text, k.class)
 				fmt.Println(line)
 				knownPrinted = append(knownPrinted, line)
@@ -321,14 +326,76 @@ func Main(c *Check, tb *testing.T) int {
 		if newViolations > 3 {
 			os.Setenv("VERIF_SHRINK_EXEC", "1") // many classes at once: minimise only the first three
 		}
-		path, code := reportViolation(c, tier, master, e.v, e.res, tb)
-		if code == ExitHarness {
-			return ExitHarness
+		confirmed := false
+		for oi, o := range occs[key] {
+			if oi > 0 && newViolations > 3 {
+				break
+			}
+			path, code := reportViolation(c, tier, master, o.v, o.res, tb)
+			if code == ExitViolation {
+				fmt.Printf("VIOLATION property=%s replay=%s\n", o.v.Prop, path)
+				fmt.Printf("  class=%s item=%s\n  %s\n", o.v.Class, o.v.Item, o.v.Detail)
+				confirmed = true
+				break
+			}
 		}
-		fmt.Printf("VIOLATION property=%s replay=%s\n", e.v.Prop, path)
-		fmt.Printf("  class=%s item=%s\n  %s\n", e.v.Class, e.v.Item, e.v.Detail)
-		exit = ExitViolation
+		if !confirmed && first.res.idx <= 400 {
+			if path, ok := reportPrefix(c, tier, master, first.v, first.res); ok {
+				fmt.Printf("VIOLATION property=%s replay=%s\n", first.v.Prop, path)
+				fmt.Printf("  class=%s item=%s (needs the preceding runs of the batch: state carried across calls)\n  %s\n", first.v.Class, first.v.Item, first.v.Detail)
+				confirmed = true
+			}
+		}
+		if confirmed {
+			exit = ExitViolation
+		} else {
+			unconfirmed = append(unconfirmed, fmt.Sprintf("%s (run %d): %s", key, first.res.idx, first.v.Detail))
+		}
 	}
+	for _, u := range unconfirmed {
+		if exit == ExitViolation {
+			fmt.Println("NOTE: observed in the batch but not reproducible from a replay file (state-dependent):", u)
+		} else {
+			fmt.Println("HARNESS-ERROR: violation observed in the batch but no replay reproduces it in a fresh process:", u)
+		}
+	}
+	if exit == ExitOK && len(unconfirmed) > 0 {
+		exit = ExitHarness
+	}
+
+	// Determinism re-check: re-execute a sample of runs and compare event-log digests.  A
+	// mismatch inside this process can also come from state that the CODE UNDER TEST carries
+	// from one call to the next (a process-wide cache, say); so a mismatching run is executed
+	// once more in a fresh process: if that agrees with the original the harness is
+	// deterministic and the batch stands; if not, exit 2.  When the batch already produced
+	// reproducible violations the code under test is known to be broken and the re-check is
+	// informational only.
+	rechecks, mismatches, stateful := 0, 0, 0
+	step := done / 6
+	if step < 1 {
+		step = 1
+	}
+	for i := 0; i < n && rechecks < 6; i += step {
+		if results[i] == nil {
+			continue
+		}
+		res2, _ := execRun(c, tier, i, results[i].seed, NewTape(results[i].seed), "", false, tb)
+		rechecks++
+		if res2.digest == results[i].digest {
+			continue
+		}
+		if fresh, ok := freshDigest(c, tier, master, i); ok && fresh == results[i].digest {
+			stateful++
+			fmt.Printf("NOTE: run %d re-executed in this process gives another event log (%s vs %s) but a fresh process reproduces the original: the code under test carries state across calls\n", i, res2.digest, results[i].digest)
+			continue
+		}
+		mismatches++
+		fmt.Printf("HARNESS-ERROR: run %d (seed %d) is not deterministic: digest %s vs %s\n", i, results[i].seed, results[i].digest, res2.digest)
+	}
+	if mismatches > 0 && exit == ExitOK {
+		exit = ExitHarness
+	}
+	_ = stateful
 
 	// Probes that must have been reached in a thorough batch.
 	var stuck []string
@@ -351,7 +418,36 @@ func Main(c *Check, tb *testing.T) int {
 	return exit
 }
 
+// freshDigest executes run i in a fresh process and returns the digest of its event log.
+func freshDigest(c *Check, tier string, master uint64, i int) (string, bool) {
+	cmd := exec.Command(os.Args[0], "-test.run", "^TestVerif$", "-test.timeout", "0")
+	cmd.Env = append(os.Environ(), "VERIF_PROP="+c.ID, "VERIF_TIER="+tier, fmt.Sprintf("VERIF_SEED=%d", master), fmt.Sprintf("VERIF_DIGEST_ONLY=%d", i), "VERIF_REPLAY=", "VERIF_TRACE=")
+	out, err := cmd.CombinedOutput()
+	if err != nil {
+		return "", false
+	}
+	for _, l := range strings.Split(string(out), "\n") {
+		if strings.HasPrefix(l, "RUN-DIGEST ") {
+			return strings.TrimSpace(strings.TrimPrefix(l, "RUN-DIGEST ")), true
+		}
+	}
+	return "", false
+}
+
 func reportViolation(c *Check, tier string, master uint64, v Violation, res *runResult, tb *testing.T) (string, int) {
+	path, code := reportViolationFocus(c, tier, master, v, res, tb)
+	if code == ExitHarness && v.Item != "" {
+		// The violation may need the run's earlier items to have happened first (state carried
+		// by the code under test from call to call): replay the whole run instead of the item.
+		fmt.Printf("NOTE: %s/%s does not reproduce from its item alone; replaying the whole run\n", v.Prop, v.Class)
+		v2 := v
+		v2.Item = ""
+		return reportViolationFocus(c, tier, master, v2, res, tb)
+	}
+	return path, code
+}
+
+func reportViolationFocus(c *Check, tier string, master uint64, v Violation, res *runResult, tb *testing.T) (string, int) {
 	tape, execs := shrink(c, tier, res.idx, res.seed, res.tape, v, tb)
 	// Final traced execution of the minimised tape.
 	_, run := execRun(c, tier, res.idx, res.seed, ReplayTape(tape), v.Item, true, tb)
@@ -383,11 +479,35 @@ func reportViolation(c *Check, tier string, master uint64, v Violation, res *run
 			ok = strings.Contains(string(out), "class="+v.Class)
 		}
 		if !ok {
-			fmt.Printf("HARNESS-ERROR: violation %s/%s did not reproduce in a fresh process (err=%v)\n%s\n", v.Prop, v.Class, err, tail(string(out), 2000))
+			_ = out
+			fmt.Printf("NOTE: replay attempt for %s/%s (run %d, item %q) did not reproduce in a fresh process; trying the next fallback\n", v.Prop, v.Class, res.idx, v.Item)
+			os.Remove(path)
 			return path, ExitHarness
 		}
 	}
 	return path, ExitViolation
+}
+
+// reportPrefix writes a replay file that re-executes the batch prefix 0..idx sequentially and
+// confirms it in a fresh process.
+func reportPrefix(c *Check, tier string, master uint64, v Violation, res *runResult) (string, bool) {
+	dir := filepath.Join(verifDir(), "replays")
+	os.MkdirAll(dir, 0o755)
+	path := filepath.Join(dir, fmt.Sprintf("%s-%d-%d-%s-prefix.json", v.Prop, master, res.idx, shortHash(v.Class)))
+	rf := ReplayFile{Property: v.Prop, Class: v.Class, Detail: v.Detail, Tier: tier, MasterSeed: master, RunIndex: res.idx, RunSeed: res.seed,
+		PrefixRuns: true, HowTo: "/verif/bin/vcheck replay " + path}
+	b, _ := json.MarshalIndent(rf, "", " ")
+	if err := os.WriteFile(path, b, 0o644); err != nil {
+		return path, false
+	}
+	cmd := exec.Command(os.Args[0], "-test.run", "^TestVerif$", "-test.timeout", "0")
+	cmd.Env = append(os.Environ(), "VERIF_REPLAY="+path, "VERIF_PROP="+c.ID)
+	out, err := cmd.CombinedOutput()
+	if ee, isExit := err.(*exec.ExitError); isExit && ee.ExitCode() == ExitViolation && strings.Contains(string(out), "class="+v.Class) {
+		return path, true
+	}
+	os.Remove(path)
+	return path, false
 }
 
 func tail(s string, n int) string {
@@ -489,7 +609,28 @@ func replayMain(c *Check, path string, tb *testing.T) int {
 		fmt.Println("HARNESS-ERROR: bad replay file:", err)
 		return ExitHarness
 	}
-	fmt.Printf("REPLAY property=%s class=%s master_seed=%d run_index=%d tape_len=%d focus=%q\n", rf.Property, rf.Class, rf.MasterSeed, rf.RunIndex, len(rf.Tape), rf.Focus)
+	fmt.Printf("REPLAY property=%s class=%s master_seed=%d run_index=%d tape_len=%d focus=%q prefix=%v\n", rf.Property, rf.Class, rf.MasterSeed, rf.RunIndex, len(rf.Tape), rf.Focus, rf.PrefixRuns)
+	if rf.PrefixRuns {
+		for i := 0; i <= rf.RunIndex; i++ {
+			seed := SubSeed(rf.MasterSeed, c.ID, i)
+			res, _ := execRun(c, rf.Tier, i, seed, NewTape(seed), "", false, tb)
+			if res.crashed != "" {
+				fmt.Println("HARNESS-ERROR:", res.crashed)
+				return ExitHarness
+			}
+			if i < rf.RunIndex {
+				continue
+			}
+			for _, v := range res.viol {
+				if v.Prop == rf.Property && v.Class == rf.Class {
+					fmt.Printf("VIOLATION property=%s replay=%s\n  class=%s item=%s\n  %s\n", v.Prop, path, v.Class, v.Item, v.Detail)
+					return ExitViolation
+				}
+			}
+		}
+		fmt.Printf("prefix replay did not reproduce class=%s\n", rf.Class)
+		return ExitOK
+	}
 	res, run := execRun(c, rf.Tier, rf.RunIndex, rf.RunSeed, ReplayTape(rf.Tape), rf.Focus, true, tb)
 	if res.crashed != "" {
 		fmt.Println("HARNESS-ERROR:", res.crashed)
